@@ -198,6 +198,8 @@ def run(ctx):
     # register of power-on), whatever was being executed when the reset came - the reset clause of C09, shared
     from .. import fetchlatch
     fetchlatch.reset_control_state(ctx, prefix="history/")
+    # "between two instruction boundaries": the boundary test is the fetch-word test, nothing more and nothing less
+    fetchlatch.boundary_predicate(ctx)
 
     table = {}
     nforms = 0
